@@ -465,4 +465,4 @@ class ChangeTarget(Generic[R], SMCAlgorithm[R]):
             w - retained_score + retained_weight,
         )
         total_weight = logsumexp(all_weights)
-        return retained_score - (total_weight - jnp.log(num_particles))
+        return total_weight - jnp.log(num_particles)
